@@ -60,12 +60,15 @@ Layouts == {<<nrb, nel, nrf>> : nrb \in 0..1, nel \in 1..2, nrf \in 0..1}
 \*   order   "interleaved": TWO rigid-body equations separated by an elastic one (index arrays instead of slices inside the solver)
 \*   gyro    a skew-symmetric part in the damping of a coupled system without rigid-body / rf equations: M, K stay symmetric, B does
 \*           not - the response is then defined by the full dynamic-stiffness solve (MatSol), not by modal equations
-Stress == {<<FALSE, "under", "asc", "contig", FALSE>>, <<TRUE, "mixed", "asc", "contig", FALSE>>, <<TRUE, "under", "zerolast", "contig", FALSE>>,
-           <<FALSE, "mixed", "shuffled", "contig", FALSE>>, <<TRUE, "mixed", "shuffled", "contig", FALSE>>,
-           <<FALSE, "under", "asc", "interleaved", FALSE>>, <<TRUE, "under", "shuffled", "interleaved", FALSE>>,
-           <<FALSE, "under", "asc", "contig", TRUE>>, <<FALSE, "under", "zerolast", "contig", TRUE>>}
+\*   lmul    the equations of the elastic block of a coupled system combined by a well-conditioned L: M, B, K full and NOT symmetric, same
+\*           response (general matrices are in the solvers' domain; a transposed solve is then visible)
+Stress == {<<FALSE, "under", "asc", "contig", FALSE, FALSE>>, <<TRUE, "mixed", "asc", "contig", FALSE, FALSE>>, <<TRUE, "under", "zerolast", "contig", FALSE, FALSE>>,
+           <<FALSE, "mixed", "shuffled", "contig", FALSE, FALSE>>, <<TRUE, "mixed", "shuffled", "contig", FALSE, FALSE>>,
+           <<FALSE, "under", "asc", "interleaved", FALSE, FALSE>>, <<TRUE, "under", "shuffled", "interleaved", FALSE, FALSE>>,
+           <<FALSE, "under", "asc", "contig", TRUE, FALSE>>, <<FALSE, "under", "zerolast", "contig", TRUE, FALSE>>,
+           <<FALSE, "under", "asc", "contig", FALSE, TRUE>>, <<FALSE, "mixed", "shuffled", "contig", FALSE, TRUE>>}
 Cfgs == {[lay |-> l, incrb |-> ib, intform |-> it, rfdo |-> rd, solver |-> s, coupling |-> c, mform |-> mf, pre_eig |-> pe, cplxk |-> ck,
-          hgiven |-> st[1], damp |-> st[2], forder |-> st[3], order |-> st[4], gyro |-> st[5]] :
+          hgiven |-> st[1], damp |-> st[2], forder |-> st[3], order |-> st[4], gyro |-> st[5], lmul |-> st[6]] :
             l \in Layouts, ib \in IncrbStrings, it \in BOOLEAN, rd \in BOOLEAN, s \in {"SolveUnc", "FreqDirect"},
             c \in {"diag", "coupled"}, mf \in {"none", "vec", "mat"}, pe \in BOOLEAN, ck \in BOOLEAN, st \in Stress}
 Legal(c) ==
@@ -77,10 +80,11 @@ Legal(c) ==
   /\ (c.hgiven => c.solver = "SolveUnc")       \* FreqDirect has no time step
   /\ (c.damp = "mixed" => (c.lay[2] = 2 /\ ~c.cplxk))
   \* the stress combinations are explored on the options that matter for them (full rigid-body output kept or dropped)
-  /\ (<<c.hgiven, c.damp, c.forder, c.order, c.gyro>> # <<FALSE, "under", "asc", "contig", FALSE>>
+  /\ (<<c.hgiven, c.damp, c.forder, c.order, c.gyro, c.lmul>> # <<FALSE, "under", "asc", "contig", FALSE, FALSE>>
          => (c.incrb \in {{"d", "v", "a"}, {"a"}, {}} /\ ~c.intform /\ ~c.rfdo))
   \* interleaved: the layout <<1, nel, nrf>> is instantiated with a SECOND rigid-body equation placed after the first elastic one
   /\ (c.order = "interleaved" => (c.lay[1] = 1 /\ ~c.pre_eig /\ ~c.cplxk))
+  /\ (c.lmul => (c.coupling = "coupled" /\ c.mform = "mat" /\ ~c.pre_eig /\ ~c.cplxk))
   /\ (c.gyro => (c.coupling = "coupled" /\ c.lay = <<0, 2, 0>> /\ c.mform = "mat" /\ ~c.pre_eig /\ ~c.cplxk /\ ~c.hgiven))
 
 \* zero pattern: TRUE = must be exactly zero
@@ -103,6 +107,6 @@ ElNeverForcedZero == \A qu \in Quant, z \in BOOLEAN : ~ZeroAt(q, "el", qu, z)
 ExportCfg == Export => PrintT(<<"CFG", q, ZeroHzAllowed(q),
      [bl \in {"rb", "el", "rf"} |-> [qu \in Quant |-> <<ZeroAt(q, bl, qu, FALSE), ZeroAt(q, bl, qu, TRUE)>>]]>>)
 ExportTerms == (Export /\ q.incrb = {} /\ q.lay = <<0, 1, 0>> /\ ~q.rfdo /\ q.solver = "SolveUnc" /\ q.mform = "none" /\ ~q.intform /\ ~q.cplxk
-                /\ ~q.hgiven /\ q.damp = "under" /\ q.forder = "asc" /\ q.order = "contig" /\ ~q.gyro) =>
+                /\ ~q.hgiven /\ q.damp = "under" /\ q.forder = "asc" /\ q.order = "contig" /\ ~q.gyro /\ ~q.lmul) =>
    PrintT(<<"FTERMS", [el |-> <<ElD, ElV, ElA>>, rb |-> <<RbD, RbV, RbA>>, rf |-> <<RfD, RfV, RfA>>, mat |-> <<MatD, MatV, MatA>>]>>)
 =============================================================================
